@@ -13,14 +13,15 @@ from verif import h
 
 PROPERTY = "C15"
 B = h.bounds(
-    quick=dict(SHAPES=4, NCTX=3, GV=2, NKEYS=4, ASH=6, DSH=2),
-    thorough=dict(SHAPES=10, NCTX=5, GV=3, NKEYS=5, ASH=8, DSH=3),
+    quick=dict(SHAPES=6, NCTX=3, GV=2, NKEYS=4, ASH=6, DSH=2),
+    thorough=dict(SHAPES=12, NCTX=5, GV=3, NKEYS=5, ASH=8, DSH=3),
 )
 LEAVES = ["'a'", "'a.b'", "int", "str", "total predicate", "raising predicate"]
 SHAPES = ["leaf", "[l0, l1]", "(l0, l1)", "Not(l0)", "[(l0, l1), l2]", "([l0, l1], Not(l2))",
-          "Not([l0, l1])", "Not((l0, l1))", "[Not(l0, roe), l1]", "(Selector(l0, roe=False), l1, [l2])"]
+          "Not([l0, l1])", "Not((l0, l1))", "[Not(l0, roe), l1]", "(Selector(l0, roe=False), l1, [l2])",
+          "([l0, l1],)", "[(l0, l1)]"]
 BOUNDS = dict(vars(B), leaves=LEAVES, shapes=SHAPES, meaning="specifications = first SHAPES entries "
-              "of `shapes` over all leaf triples; both raise_on_error settings (outer and, where a "
+              "of `shapes` (quick: shapes 0-3 and the last two) over all leaf triples; both raise_on_error settings (outer and, where a "
               "nested selector object has its own, inner); values: symbolic int or a string, with "
               "context from NCTX alternatives; GroupBy: every subset pair (group_by, merge) of "
               "{'', a, a.b, a.b.c, d} and GV values with contexts over 8x3 shapes")
@@ -104,6 +105,13 @@ def build(shape, l0, l1, l2, roe, roe2):
         return Selector((A, Bq), roe), lambda v: guarded(lambda: ra(v) and rb(v), roe)
     if shape == 3:
         return Not(A, roe), lambda v: not ra(v)
+    if shape == 10:
+        # a list nested in a tuple and a tuple nested in a list (two leaves)
+        return (Selector(([A, Bq],), roe),
+                lambda v: guarded(lambda: guarded(lambda: ra(v) or rb(v), roe), roe))
+    if shape == 11:
+        return (Selector([(A, Bq)], roe),
+                lambda v: guarded(lambda: guarded(lambda: ra(v) and rb(v), roe), roe))
     if shape == 4:
         return (Selector([(A, Bq), C], roe),
                 lambda v: guarded(lambda: guarded(lambda: ra(v) and rb(v), roe) or rc(v), roe))
@@ -142,6 +150,9 @@ def check_selector(shape: int, l0: int, l1: int, l2: int, roe: bool, roe2: bool,
     post: _
     """
     shape = h.concrete(shape, 0, B.SHAPES - 1)
+    # quick tier: the two-leaf nested shapes take the place of shapes 4, 5
+    if B.SHAPES == 6 and shape >= 4:
+        shape = shape + 6
     # only the leaves / flags the shape uses are read (no useless forks)
     l0 = h.concrete(l0, 0, 5)
     l1 = h.concrete(l1, 0, 5) if shape not in (0, 3) else 0
@@ -335,7 +346,7 @@ def check_group_by(gmask: int, mmask: int, n: int, a0: int, d0: int, a1: int, d1
 
 
 CONDITIONS = [
-    dict(fn="check_selector", shards=(12, 20), budget=(90, 1500),
+    dict(fn="check_selector", shards=(18, 36), budget=(90, 1500),
          smoke=["check_selector(1, 0, 5, 0, False, True, False, 0, 1)",
                 "check_selector(3, 5, 0, 0, False, True, True, 0, 0)",
                 "check_selector(2, 2, 4, 0, True, True, False, 3, 2)"]),
